@@ -403,20 +403,28 @@ func (r *runner) run1(ev *evidence) int {
 	}
 
 	validated := 0
+	var diffErr error
 	// translator validation: concrete differential
 	if len(spec.Diff) > 0 {
 		n, err := r.differential(pool)
 		if err != nil {
-			fmt.Println("INCONCLUSIVE: ENGINE-MISMATCH:", err)
-			cov["explanation"] = "differential failed: " + err.Error()
-			return 2
+			// The translator validation failed (or the native build hangs / crashes on the concrete
+			// inputs). Nothing below can end in "held": exploration continues only so that a
+			// violation the engine can demonstrate and confirm is still reported as such.
+			diffErr = err
+			fmt.Println("INCONCLUSIVE: ENGINE-MISMATCH:", firstLine(err.Error()))
+		} else {
+			validated += n
+			r.logf("concrete differential: %d functions agree natively and in the engine", n)
 		}
-		validated += n
-		r.logf("concrete differential: %d functions agree natively and in the engine", n)
 	}
 
 	if spec.Custom != nil {
 		cov["traces_validated_against_impl"] = validated
+		if diffErr != nil {
+			cov["explanation"] = "differential failed: " + diffErr.Error()
+			return 2
+		}
 		return spec.Custom(r, ev, pool)
 	}
 	budget := spec.QuickBudget
@@ -439,6 +447,10 @@ func (r *runner) run1(ev *evidence) int {
 	knownPrinted := map[string]bool{}
 	nviol := 0
 	exit := 0
+	if diffErr != nil {
+		exit = 2
+		inconclusive["ENGINE-MISMATCH: concrete differential: "+tail(diffErr.Error(), 600)] = 1
+	}
 	vacuous := []string{}
 
 	for _, h := range spec.Harnesses {
@@ -594,7 +606,7 @@ func (r *runner) run1(ev *evidence) int {
 	cov["exhaustive"] = false
 	cov["explanation"] = "states = feasible paths explored to completion within the stated bounds; transitions = SMT queries discharged; every path's assertions were checked for all values of the symbolic inputs on that path"
 	ev.Violations = nviol
-	if exit == 2 {
+	if exit == 2 || len(inconclusive) > 0 && nviol > 0 {
 		keys := make([]string, 0, len(inconclusive))
 		for k := range inconclusive {
 			if !strings.HasPrefix(k, "tolerated: ") {
@@ -606,6 +618,9 @@ func (r *runner) run1(ev *evidence) int {
 			keys = keys[:8]
 		}
 		fmt.Println("INCONCLUSIVE:", strings.Join(keys, " | "))
+	}
+	if nviol > 0 {
+		exit = 1 // a violation that was confirmed against the real code outweighs whatever else stayed undecided
 	}
 	if exit == 0 {
 		fmt.Printf("OK property=%s tier=%s paths=%d queries=%d validated=%d wall=%.0fs\n", spec.ID, r.tier, totalPaths, totalQueries, validated, time.Since(r.start).Seconds())
